@@ -399,42 +399,3 @@ Proof.
          |destruct b; cbn [msg_matches]; rewrite !Z.eqb_refl, zl_eqb_refl; reflexivity].
 Qed.
 
-(* ---- C01_decode_conforms ---------------------------------------------------------------------- *)
-
-Theorem decode_conforms m : spec_wf m = true -> conforming_decode m = true ->
-  exists o d, py_decode (msg_is_request m) (spec_pdu m) = Ok o /\ class_of o = spec_class m /\ abs o = Some d /\ msg_matches m d = true.
-Proof.
-  intros Hwf Hc. change (dec_ok m). destruct m; try discriminate Hc.
-  - now apply dec_ReadCoilsReq.
-  - now apply dec_ReadDiscreteReq.
-  - now apply dec_ReadHoldingReq.
-  - now apply dec_ReadInputReq.
-  - now apply dec_WriteCoilReq.
-  - now apply dec_WriteRegReq.
-  - apply dec_empty_reqs.
-  - cbn [conforming_decode] in Hc. destruct data as [|w [|w2 t]]; try discriminate Hc. now apply dec_DiagReq1.
-  - apply dec_empty_reqs.
-  - apply dec_empty_reqs.
-  - now apply dec_WriteCoilsReq.
-  - now apply dec_WriteRegsReq.
-  - apply dec_empty_reqs.
-  - now apply dec_MaskWriteReq.
-  - now apply dec_ReadWriteRegsReq.
-  - now apply dec_ReadFifoReq.
-  - now apply dec_ReadDevIdReq.
-  - now apply dec_ReadCoilsRsp.
-  - now apply dec_ReadDiscreteRsp.
-  - now apply dec_ReadHoldingRsp.
-  - now apply dec_ReadInputRsp.
-  - now apply dec_WriteCoilRsp.
-  - now apply dec_WriteRegRsp.
-  - now apply dec_ReadExcStatusRsp.
-  - now apply dec_DiagRsp.
-  - now apply dec_CommEventCounterRsp.
-  - now apply dec_CommEventLogRsp.
-  - now apply dec_WriteCoilsRsp.
-  - now apply dec_WriteRegsRsp.
-  - now apply dec_MaskWriteRsp.
-  - now apply dec_ReadWriteRegsRsp.
-  - now apply dec_Exception.
-Qed.
